@@ -367,14 +367,39 @@ func runCase(c Case) (err error) {
 		cr2 := vgen.NewChunkReader(progen.FrameOf(s, rows), nil, false)
 		sc2 := sliceio.NewScanner(s.Type(), sliceio.NopCloser(cr2))
 		var bad []interface{}
-		if c.N%2 == 0 || len(s.Cols) == 0 {
+		switch {
+		case c.N%3 == 0 || len(s.Cols) == 0:
 			bad = append(append([]interface{}{}, ptrs...), new(int)) // one too many
-		} else {
+		case c.N%3 == 1:
 			bad = append([]interface{}{}, ptrs...)
 			bad[c.N%len(bad)] = new(complex64) // no column has this type
+		default:
+			bad = append([]interface{}{}, ptrs[:len(ptrs)-1]...) // one too few
 		}
-		if sc2.Scan(ctx, bad...) {
-			return fmt.Errorf("scanner accepted destinations of the wrong arity/type")
+		// the bad destinations are passed on the first or on a later call (after k good ones)
+		good := 0
+		if len(rows) > 1 {
+			good = (c.N / 2) % minInt(len(rows), 4)
+		}
+		for k := 0; k < good; k++ {
+			if !sc2.Scan(ctx, ptrs...) {
+				return fmt.Errorf("scanner: Scan %d of %d rows returned false: %v", k, len(rows), sc2.Err())
+			}
+		}
+		badOK := false
+		func() {
+			defer func() {
+				if r := recover(); r != nil {
+					err = fmt.Errorf("scanner: destinations of the wrong arity/type on call %d made Scan panic instead of reporting an error: %v", good, r)
+				}
+			}()
+			badOK = sc2.Scan(ctx, bad...)
+		}()
+		if err != nil {
+			return err
+		}
+		if badOK {
+			return fmt.Errorf("scanner accepted destinations of the wrong arity/type on call %d", good)
 		}
 		if e := sc2.Err(); e == nil {
 			return fmt.Errorf("scanner rejected wrong destinations without reporting an error")
@@ -383,6 +408,13 @@ func runCase(c Case) (err error) {
 		}
 	}
 	return nil
+}
+
+func minInt(a, b int) int {
+	if a < b {
+		return a
+	}
+	return b
 }
 
 func maxInt(a, b int) int {
